@@ -16,11 +16,13 @@ from vf.spec import literal
 END, ENDC = ('END', ''), ('ENDC', '# tail')
 VOC_R = [END, ENDC, ('OP', '['), ('OP', ']'), ('OP', '('), ('OP', ')'), ('OP', '{'), ('OP', '}'),
          ('OP', ','), ('OP', ':'), ('OP', '-'), ('OP', '+'), ('NUMBER', '1'), ('STRING', "'a'"),
-         ('STRING', "''"), ('NAME', 'True'), ('NAME', 'x'), ('NL', '\n'), ('COMMENT', '# c')]
+         ('STRING', "''"), ('NAME', 'True'), ('NAME', 'x'), ('NL', '\n'), ('COMMENT', '# c'),
+         ('NUMBER', '007'), ('NUMBER', '00')]
 VOC_F = VOC_R + [('NUMBER', '0x1F'), ('NUMBER', '1_0'), ('NUMBER', '1e3'), ('NUMBER', '.5'),
                  ('NUMBER', '1j'), ('STRING', '"b"'), ('STRING', "'''t'''"), ('STRING', "r'\\n'"),
                  ('STRING', "b'x'"), ('STRING', "rb'y'"), ('STRING', "u'z'"), ('STRING', '""'),
-                 ('NAME', 'False'), ('NAME', 'None'), ('OP', '='), ('OP', '.'), ('OP', '*')]
+                 ('NAME', 'False'), ('NAME', 'None'), ('OP', '='), ('OP', '.'), ('OP', '*'),
+                 ('NUMBER', '0_7'), ('NUMBER', '0o17'), ('NUMBER', '0b101'), ('NUMBER', '1.'), ('NUMBER', '1E-2')]
 # structural vocabulary for deeper nesting (N = 7): brackets, comma, one number, one string
 VOC_S = [END, ('OP', '('), ('OP', ')'), ('OP', '['), ('OP', ']'), ('OP', ','), ('NUMBER', '1')]
 VOC_T = VOC_S + [('OP', '{'), ('OP', '}'), ('OP', ':'), ('STRING', "'a'")]
@@ -159,13 +161,13 @@ HARNESSES = {
                  'gin.config:bind_parameter'],
         smoke=[_smoke(2, 12, 8, 13, 3), _smoke(14, 13), _smoke(6, 12, 9, 10, 12, 7),
                _smoke(4, 12, 8, 5, 1), _smoke(2, 17, 12, 18, 3)],
-        tiers={'quick': dict(split=dict(k0=list(range(19)), k1=list(range(19))),
-                             fixed=dict(n=4, voc=0, nk=19, k4=0, k5=0, k6=0, k7=0), budget_s=100),
-               'thorough': dict(split=dict(k0=list(range(36)), k1=list(range(36))),
-                                fixed=dict(n=4, voc=1, nk=36, k4=0, k5=0, k6=0, k7=0), budget_s=900)},
-        bounds='value = at most 4 tokens; quick: 19-kind vocabulary (brackets , : - + NUMBER STRING empty-STRING '
-               'True NAME NL COMMENT, END, END-with-comment); thorough: 36 kinds (6 NUMBER forms, 8 STRING/bytes '
-               'forms, True/False/None/x, = . *)'),
+        tiers={'quick': dict(split=dict(k0=list(range(21)), k1=list(range(21))),
+                             fixed=dict(n=4, voc=0, nk=21, k4=0, k5=0, k6=0, k7=0), budget_s=100),
+               'thorough': dict(split=dict(k0=list(range(43)), k1=list(range(43))),
+                                fixed=dict(n=4, voc=1, nk=43, k4=0, k5=0, k6=0, k7=0), budget_s=900)},
+        bounds='value = at most 4 tokens; quick: 21-kind vocabulary (brackets , : - + NUMBER STRING empty-STRING '
+               'True NAME NL COMMENT, END, END-with-comment, the near-miss NUMBER 007 and the legal 00); thorough: 43 kinds '
+               '(13 NUMBER forms incl. near-misses, 8 STRING/bytes forms, True/False/None/x, = . *)'),
     'c02_deep': dict(
         fn='c02_tokens',
         anchors=['gin.config_parser:_maybe_parse_container'],
